@@ -248,3 +248,146 @@ Proof.
   - apply IH.
   - reflexivity.
 Qed.
+
+(* ------------------------------------------------------------------------------------------ *)
+(* appended (C12 builder): testbit specifications of the word operations, closure of the 64-bit
+   range, arithmetic views.  Larger developments (bits_of as the Go loop sees it, sortedness,
+   popcount additivity, bit deposit/extract, the bb_pointwise tactic) are in Base/BitsLemmas.v. *)
+
+Lemma ones64_testbit i : N.testbit ones64 i = (i <? 64).
+Proof.
+  rewrite ones64_eq. destruct (N.ltb_spec i 64) as [H|H].
+  - apply N.ones_spec_low. exact H.
+  - apply N.ones_spec_high. exact H.
+Qed.
+
+Lemma band_testbit x y i : N.testbit (band x y) i = N.testbit x i && N.testbit y i.
+Proof. apply N.land_spec. Qed.
+Lemma bor_testbit x y i : N.testbit (bor x y) i = N.testbit x i || N.testbit y i.
+Proof. apply N.lor_spec. Qed.
+Lemma bxor_testbit x y i : N.testbit (bxor x y) i = xorb (N.testbit x i) (N.testbit y i).
+Proof. apply N.lxor_spec. Qed.
+Lemma bandn_testbit x y i : N.testbit (bandn x y) i = N.testbit x i && negb (N.testbit y i).
+Proof. apply N.ldiff_spec. Qed.
+
+Lemma bnot_testbit x i : N.testbit (bnot x) i = (i <? 64) && negb (N.testbit x i).
+Proof.
+  unfold bnot. rewrite N.lxor_spec, w64_testbit, ones64_testbit.
+  destruct (N.testbit x i), (i <? 64); reflexivity.
+Qed.
+
+Lemma shl_testbit x k i : N.testbit (shl x k) i = (i <? 64) && (k <=? i) && N.testbit x (i - k).
+Proof.
+  unfold shl. rewrite w64_testbit.
+  destruct (N.leb_spec k i) as [H|H].
+  - rewrite N.shiftl_spec_high' by exact H. destruct (i <? 64), (N.testbit x (i - k)); reflexivity.
+  - rewrite N.shiftl_spec_low by exact H. destruct (i <? 64); reflexivity.
+Qed.
+
+Lemma shr_testbit x k i : N.testbit (shr x k) i = N.testbit x (i + k).
+Proof. apply N.shiftr_spec'. Qed.
+
+(* closure of the 64-bit range *)
+Lemma w64p_testbit x : w64p x <-> (forall i, 64 <= i -> N.testbit x i = false).
+Proof. split; [apply lt_two64_testbit | apply testbit_lt_two64]. Qed.
+
+Lemma w64_w64p x : w64p (w64 x).
+Proof. apply w64_lt. Qed.
+Lemma shl_w64p x k : w64p (shl x k).
+Proof. apply w64_lt. Qed.
+Lemma add64_w64p x y : w64p (add64 x y).
+Proof. apply w64_lt. Qed.
+Lemma sub64_w64p x y : w64p (sub64 x y).
+Proof. apply w64_lt. Qed.
+Lemma mul64_w64p x y : w64p (mul64 x y).
+Proof. apply w64_lt. Qed.
+Lemma neg64_w64p x : w64p (neg64 x).
+Proof. apply w64_lt. Qed.
+Lemma bnot_w64p x : w64p (bnot x).
+Proof.
+  apply w64p_testbit. intros i Hi. rewrite bnot_testbit.
+  destruct (N.ltb_spec i 64); [lia|reflexivity].
+Qed.
+Lemma band_w64p_l x y : w64p x -> w64p (band x y).
+Proof.
+  intros H. apply w64p_testbit. intros i Hi. rewrite band_testbit, (lt_two64_testbit x H i Hi). reflexivity.
+Qed.
+Lemma band_w64p_r x y : w64p y -> w64p (band x y).
+Proof.
+  intros H. apply w64p_testbit. intros i Hi. rewrite band_testbit, (lt_two64_testbit y H i Hi). apply andb_false_r.
+Qed.
+Lemma bor_w64p x y : w64p x -> w64p y -> w64p (bor x y).
+Proof.
+  intros Hx Hy. apply w64p_testbit. intros i Hi.
+  rewrite bor_testbit, (lt_two64_testbit x Hx i Hi), (lt_two64_testbit y Hy i Hi). reflexivity.
+Qed.
+Lemma bxor_w64p x y : w64p x -> w64p y -> w64p (bxor x y).
+Proof.
+  intros Hx Hy. apply w64p_testbit. intros i Hi.
+  rewrite bxor_testbit, (lt_two64_testbit x Hx i Hi), (lt_two64_testbit y Hy i Hi). reflexivity.
+Qed.
+Lemma bandn_w64p x y : w64p x -> w64p (bandn x y).
+Proof.
+  intros H. apply w64p_testbit. intros i Hi. rewrite bandn_testbit, (lt_two64_testbit x H i Hi). reflexivity.
+Qed.
+Lemma shr_w64p x k : w64p x -> w64p (shr x k).
+Proof.
+  intros H. apply w64p_testbit. intros i Hi. rewrite shr_testbit. apply (lt_two64_testbit x H). lia.
+Qed.
+Lemma bit_w64p s : s < 64 -> w64p (bit s).
+Proof. apply bit_lt. Qed.
+Lemma setb_w64p x s : w64p x -> s < 64 -> w64p (setb x s).
+Proof. intros Hx Hs. apply (bor_w64p x (bit s) Hx (bit_lt s Hs)). Qed.
+Lemma clrb_w64p x s : w64p x -> w64p (clrb x s).
+Proof. intros Hx. apply (bandn_w64p x (bit s) Hx). Qed.
+
+(* arithmetic views *)
+Lemma add64_spec x y : add64 x y = (x + y) mod two64.
+Proof. apply w64_spec. Qed.
+Lemma mul64_spec x y : mul64 x y = (x * y) mod two64.
+Proof. apply w64_spec. Qed.
+Lemma sub64_spec x y : y < two64 -> sub64 x y = (x + two64 - y) mod two64.
+Proof.
+  intros H. unfold sub64. rewrite (w64_id y H), w64_spec. f_equal. lia.
+Qed.
+Lemma sub64_small x y : y <= x -> x < two64 -> sub64 x y = x - y.
+Proof.
+  intros Hy Hx. rewrite sub64_spec by lia.
+  replace (x + two64 - y) with ((x - y) + 1 * two64) by lia.
+  rewrite N.mod_add by discriminate. apply N.mod_small. lia.
+Qed.
+Lemma neg64_spec x : 0 < x -> x < two64 -> neg64 x = two64 - x.
+Proof.
+  intros H0 H. unfold neg64. rewrite sub64_spec by exact H. apply N.mod_small. lia.
+Qed.
+
+(* Go's b & (b - 1) on uint64 is clear_lsb *)
+Lemma clear_lsb_sub64 x : x < two64 -> clear_lsb x = band x (sub64 x 1).
+Proof.
+  intros H. destruct (N.eq_dec x 0) as [->|Hx]; [reflexivity|].
+  rewrite sub64_small by lia. unfold clear_lsb, band. f_equal. lia.
+Qed.
+
+Lemma lsb_lt b : b <> 0 -> b < two64 -> lsb b < 64.
+Proof.
+  intros H0 H. destruct (N.lt_ge_cases (lsb b) 64) as [L|L]; [exact L|].
+  pose proof (lsb_testbit b H0) as T. rewrite (lt_two64_testbit b H _ L) in T. discriminate.
+Qed.
+
+Lemma clear_lsb_w64p b : w64p b -> w64p (clear_lsb b).
+Proof. intros H. apply (band_w64p_l b (N.pred b) H). Qed.
+
+Lemma clear_lsb_lt b : b <> 0 -> clear_lsb b < b.
+Proof.
+  intros H. destruct b as [|p]; [congruence|]. rewrite clear_lsb_pos.
+  rewrite N.clearbit_spec'. pose proof (ctzp_testbit p) as T.
+  assert (N.ldiff (N.pos p) (2 ^ ctzp p) = N.pos p - 2 ^ ctzp p) as ->.
+  { symmetry. apply N.sub_nocarry_ldiff.
+    apply N.bits_inj_0; intro i. rewrite N.ldiff_spec, N.pow2_bits_eqb.
+    destruct (N.eqb_spec (ctzp p) i) as [<-|]; [rewrite T; reflexivity|reflexivity]. }
+  assert (0 < 2 ^ ctzp p) by (apply N.neq_0_lt_0, N.pow_nonzero; discriminate).
+  assert (2 ^ ctzp p <= N.pos p).
+  { destruct (N.le_gt_cases (2 ^ ctzp p) (N.pos p)) as [L|L]; [exact L|].
+    apply N.log2_lt_pow2 in L; [|lia]. rewrite N.bits_above_log2 in T by exact L. discriminate. }
+  lia.
+Qed.
